@@ -78,8 +78,24 @@ class CFG:
         self.blocks = {b["id"]: b for b in body.blocks}
         self.succ = {}
         self.pred = {i: [] for i in self.blocks}
+        self.folded = []
         for i, b in self.blocks.items():
-            self.succ[i] = self._succ(b["term"])
+            ss = self._succ(b["term"])
+            t = b["term"]
+            if t["k"] == "switch" and t["on"][0] in ("cp", "mv") and len(t["on"][1]) == 1:
+                # literal-boolean folding: `cfg!(feature = ..)` lowers to `_x = const true|false; switchInt(_x)`
+                l = t["on"][1][0]
+                val = None
+                for st in b["stmts"]:
+                    if st["d"] == [l]:
+                        rv = st["rv"]
+                        val = rv["a"][1] if rv["k"] == "use" and rv["a"][0] == "c" and rv["a"][1] in ("true", "false") else None
+                if val is not None:
+                    keep = [(d, v) for d, v in ss if (v == "otherwise") == (val == "true") and (val == "true" or v == "0")]
+                    if keep:
+                        self.folded.append((i, val))
+                        ss = keep
+            self.succ[i] = ss
         for i, ss in self.succ.items():
             for s, _ in ss:
                 self.pred[s].append(i)
